@@ -59,7 +59,17 @@ func init() {
 					continue
 				}
 				s := specFromObj(m)
-				for _, alg := range algs {
+				setAlgs := algs
+				if len(algs) < len(algNames) { // quick: the three staple algorithms, plus the others in rotation
+					var rest []string
+					for _, n := range algNames {
+						if n != "ES256" && n != "EdDSA" && n != "PS256" {
+							rest = append(rest, n)
+						}
+					}
+					setAlgs = append(append([]string{}, algs...), rest[(idx/stride)%len(rest)])
+				}
+				for _, alg := range setAlgs {
 					hows := []string{"setters", "lit", "cbor"}
 					how := hows[cc.r.Intn(len(hows))]
 					var c psatoken.IClaims
